@@ -26,6 +26,7 @@ import (
 	"sort"
 	"strings"
 	"sync"
+	"sync/atomic"
 
 	sentinel "github.com/alibaba/sentinel-golang/api"
 	"github.com/alibaba/sentinel-golang/core/base"
@@ -187,6 +188,8 @@ func isolationModule() *module {
 		}}
 }
 
+var hsArg int64
+
 func hotspotModule() *module {
 	mk := func(ss []spec) []*hotspot.Rule {
 		out := make([]*hotspot.Rule, 0, len(ss))
@@ -195,7 +198,14 @@ func hotspotModule() *module {
 			if s.block {
 				thr = int64(1 + idOffset(s.id))
 			}
-			out = append(out, &hotspot.Rule{ID: s.id, Resource: s.res, MetricType: hotspot.QPS, ControlBehavior: hotspot.Reject,
+			mt := hotspot.QPS
+			if s.id == "p" {
+				// the never-blocking neighbour is a CONCURRENCY rule, entered with many different
+				// argument values from several goroutines: exercises the per-value counter cache
+				// (ConcurrencyStatSlot / LruCacheMap.Get/AddIfAbsent) under the race detector
+				mt = hotspot.Concurrency
+			}
+			out = append(out, &hotspot.Rule{ID: s.id, Resource: s.res, MetricType: mt, ControlBehavior: hotspot.Reject,
 				ParamIndex: 0, Threshold: thr, DurationInSec: 1, SpecificItems: map[interface{}]int64{}})
 		}
 		return out
@@ -214,7 +224,11 @@ func hotspotModule() *module {
 		rulesOf:  func(res string) []string { return ids(hotspot.GetRulesOfResource(res)) },
 		allRules: func() []string { return ids(hotspot.GetRules()) },
 		try: func(res string) (bool, string) {
-			e, b := sentinel.Entry(res, sentinel.WithArgs("k"), sentinel.WithBatchCount(batch))
+			var arg interface{} = "k"
+			if strings.HasSuffix(res, "fixed-pass") {
+				arg = int(atomic.AddInt64(&hsArg, 1) % 16)
+			}
+			e, b := sentinel.Entry(res, sentinel.WithArgs(arg), sentinel.WithBatchCount(batch))
 			if b != nil {
 				if r, ok := b.TriggeredRule().(*hotspot.Rule); ok && r != nil {
 					return true, r.ID
@@ -332,15 +346,18 @@ func stressModule(m *module, iters int, wg *sync.WaitGroup, start chan struct{})
 			}
 		}
 	})
-	spawn("traffic-fixed-pass", func() {
-		for i := 0; i < iters; i++ {
-			if b, by := m.try(fp); b {
-				fail(m.name, "independence", m.name+"-update-of-r-changed-decision-on-other-resource", fmt.Sprintf("resource %s: blocked by %q, its only rule p passes", fp, by))
-			} else {
-				count(m.name+":fixed-pass:ok", 1)
+	// two goroutines: concurrent entries/exits on one resource (for hotspot: one per-value counter cache)
+	for g := 0; g < 2; g++ {
+		spawn("traffic-fixed-pass", func() {
+			for i := 0; i < iters/2; i++ {
+				if b, by := m.try(fp); b {
+					fail(m.name, "independence", m.name+"-update-of-r-changed-decision-on-other-resource", fmt.Sprintf("resource %s: blocked by %q, its only rule p passes", fp, by))
+				} else {
+					count(m.name+":fixed-pass:ok", 1)
+				}
 			}
-		}
-	})
+		})
+	}
 	spawn("traffic-clr", func() {
 		for i := 0; i < iters; i++ {
 			m.try(clr)
